@@ -5,7 +5,7 @@ import S3V.Spec.SigV4Verify
 /-!
 # Findings of C05 / C06 / C10 (signature clause): kernel-checked facts about concrete requests
 
-Outside the pass/fail gate. State of the code: after the repairs b7c08fd, 4011296, 10af2bf, d4ba65c, d453cd3, a3c9b6f.
+Outside the pass/fail gate. State of the code: after the repairs b7c08fd, 4011296, 10af2bf, d4ba65c, d453cd3, 4d2a913.
 
 * OPEN deviation (counterexamples to the FULL statements): duplicate query names with unsorted values
   (`sigv4-dup-query-unsorted`, header and presigned path) — the only remaining obstacle.
@@ -202,7 +202,7 @@ theorem spec_verifier_accepts_edge_blank_amz_headers :
         headers := edgeHeaders edgeAuthValue, body := [], form := [], isForm := false } edgeAuthValue =
       .accept b!"AK" b!"r" b!"s3" := by decide +kernel
 
-/-! ### repaired (a3c9b6f): former class `sigv4-get-head-body`
+/-! ### repaired (4d2a913): former class `sigv4-get-head-body`
 
 `v4_check_header_auth` no longer forces the payload line of a GET / HEAD request to the empty-string digest: the line
 follows `x-amz-content-sha256` and the body as for every other method. Regression facts on the shape of the corpus
@@ -236,7 +236,7 @@ def ctxGetBody (method declared : Bytes) : Ctx :=
     body := b!"hello", bodyOnce := true, contentLength := some 5, decodedContentLength := none }
 
 /-- a GET request with a body, signed as the specification says (payload line = the digest of the body it declares), is
-    ACCEPTED by the model of the repaired code (before a3c9b6f: `.err .SignatureDoesNotMatch`, the empty-string digest was
+    ACCEPTED by the model of the repaired code (before 4d2a913: `.err .SignatureDoesNotMatch`, the empty-string digest was
     signed) -/
 theorem spec_signed_get_with_body_accepted :
     v4CheckHeaderAuth shaT hmacMsg (some look0) (ctxGetBody b!"GET" helloDigest) = .accept b!"AK" b!"r" b!"s3" := by
